@@ -701,7 +701,16 @@ impl World {
         }
         self.emit("update", r, if res.is_ok() { "ok" } else { "err" }, json!({"doc": doc}));
         let m = self.reps[r].m.as_ref().unwrap();
-        let rd = read_res(m);
+        // a root that carries its own identifier is read back under that identifier
+        let own_root = doc.get("_id").and_then(|x| x.as_str()).map(|x| x.to_string());
+        let rd = match &own_root {
+            None => read_res(m),
+            Some(id) => match catch_unwind(AssertUnwindSafe(|| m.read(Some(id)))) {
+                Ok(Ok(v)) => json!({"ok": Value::from(v)}),
+                Ok(Err(e)) => json!({"err": msg_prefix(&e.to_string())}),
+                Err(e) => json!({"panic": msg_prefix(&pmsg(e))}),
+            },
+        };
         let expect = add_ids(doc, true);
         if arr_conf.is_empty() {
             if rd != json!({ "ok": expect }) {
